@@ -5,8 +5,9 @@
     Executable definitions only.  The tree of /repo this mirrors contains the
     repairs F4 (Model.dereify prefers exact rows), F9 (epidata.get), F12
     (top=g.top), F17 (dereified source must be a variable), F25 (a
-    self-loop is never treated as inverted by reify_edges) and F28 (new
-    variables avoid every existing target, not only the variables).
+    self-loop is never treated as inverted by reify_edges), F28 (new
+    variables avoid every existing target, not only the variables) and F29
+    (indicate_branches checks that the target is a variable).
 
     Python sets used for membership only ([vars], [variables], [fixed]) are
     lists; dicts ([new_epidata], [inst], [other], [agenda]) are PyDict
@@ -229,8 +230,10 @@ Definition reify_attributes (g : graph) : outcome graph :=
   Ok (mk_graph ts (graph_top g) ed (gmeta g)).
 
 (* ---------------------------------------------------------------------- *)
-(* indicate_branches.  [assert isinstance(t[2], str)] is the only way to fail:
-   Other 4 = AssertionError. *)
+(* indicate_branches (with the F29 repair: the branch is indicated from the
+   target's node only when the target is a variable).
+   [assert isinstance(t[2], str)] is the only way to fail: Other 4 =
+   AssertionError; it needs a variable that is not a str. *)
 Definition is_astr (a : atom) : bool := match a with AStr _ => true | _ => false end.
 
 Fixpoint indicate_loop (m : model) (g : graph) (ts : list triple) : outcome (list triple) :=
@@ -242,7 +245,7 @@ Fixpoint indicate_loop (m : model) (g : graph) (ts : list triple) : outcome (lis
           if atom_eqb v (ttgt t) then
             rest <- indicate_loop m g ts' ;;
             Ok ((tsrc t, top_role m, ttgt t) :: t :: rest)
-          else if atom_eqb v (tsrc t) then
+          else if atom_eqb v (tsrc t) && is_var g (ttgt t) then
             if is_astr (ttgt t) then
               rest <- indicate_loop m g ts' ;;
               Ok ((ttgt t, top_role m, tsrc t) :: t :: rest)
